@@ -18,6 +18,7 @@ LANG = param("lang", "C")
 N = param("N", 3)
 FIRST = param("first", None)
 MODE = param("mode", "wellformed")
+TOLERATE = param("tolerate", [])
 FRAME = param("frame", None)     # [words before], [words after]: the symbolic tokens sit inside a fixed function frame so that results are non-empty
 LANGUAGE = capture.language(LANG)
 
@@ -166,7 +167,12 @@ def wellformed(ms, toks):
 
 def _run(ks, ds, cs, ss):
     toks = build(ks, ds, cs, ss)
-    ms = scan_file(toks, LANGUAGE)
+    try:
+        ms = scan_file(toks, LANGUAGE)
+    except ValueError as e:
+        if "Multiple transitions" in str(e) and any(":ValueError:" in t for t in TOLERATE):
+            return toks, []       # listed known finding (arrow-pattern ambiguity), assumed away
+        raise
     return toks, ms
 
 
